@@ -77,7 +77,7 @@ Definition adaptive_eigen_family : famspec :=
      f_transient := ["_ind"; "_dx"; "_cache"] |}.
 Definition adaptive_kappa_family : famspec :=
   {| f_name := "adaptive_solid_angle"; f_dynamic := ["bit_generator"; "_nsteps"; "_start_step"; "_kappa"; "_log_kappa"; "_norm"];
-     f_saved := [gen; clk; sst; ("kappa", "_kappa")]; f_derived := [("_log_kappa", ["_kappa"]); ("_norm", ["_kappa"])];
+     f_saved := [gen; clk; sst; ("kappa", "_kappa"); ("log_kappa", "_log_kappa")]; f_derived := [("_norm", ["_kappa"])];
      f_transient := [] |}.
 
 Definition table : list famspec :=
